@@ -124,6 +124,10 @@ class D(Driver):
             if rel in tr and tr[rel] is not None:
                 if tl.get(rel) != tr[rel]:
                     vs.append(viol("requested-not-in-sync", rel, obs))
+        # a local rename of a downloaded file reaches the remote (also when the file is un-requested right afterwards)
+        for side, op, ok in w.user_log:
+            if side == 0 and ok and op[0] == "rename" and op[1] in tr and op[2] not in tr:
+                vs.append(viol("local-rename-not-pushed", "%s->%s" % (op[1], op[2]), obs))
         # files matching ANY registered auto-sync predicate are downloaded and kept in sync (unless un-requested)
         for rel, v in tr.items():
             if v is None or _is_conflicted(rel) or rel in w.unwanted or any(rel == u[0] for u in w.unreq):
@@ -137,7 +141,9 @@ class D(Driver):
                 continue
             wrote_after = [op[2].encode() for s, op, ok in w.user_log if ok and op[0] == "write" and op[1] == rel]
             if rel not in tr:
-                if rb is not None:
+                # (a pending local rename is pushed by the un-request: the remote file then lives on under the new name)
+                moved = [op[2] for s, op, ok in w.user_log if ok and s == 0 and op[0] == "rename" and op[1] == rel]
+                if rb is not None and not any(tr.get(m) == rb for m in moved):
                     vs.append(viol("unsync-deleted-remote", rel, obs))
             else:
                 newest = wrote_after[-1] if wrote_after else (lb if lb is not None else rb)
@@ -220,6 +226,16 @@ def jobs(tier):
                     opts["autosync"] = auto
                 out.append({"prop": PROP, "cfg": cfg, "order": "asc", "base": BASE_R, "scripts": st, "app": app, "opts": opts,
                             "mode": {"k": None, "cap": 2500 if tier == "quick" else 10000, "depth": 60, "audit": 0}})
+    # a downloaded file is renamed locally and un-requested before the engine has synced the rename
+    for cfg in cfgs:
+        for app, L in (([["REQ", "r1"], ["UNREQ", "k1"]], [["rename", "r1", "k1"]]),
+                       ([["REQ", "d/r2"], ["UNREQ", "d/k2"]], [["rename", "d/r2", "d/k2"]]),
+                       ([["REQ", "r1"], ["UNREQ", "r1"]], [["rename", "r1", "k1"]]),
+                       ([["REQ", "d/r2"], ["UNREQ", "d/r2"]], [["rename", "d/r2", "d/k2"]]),
+                       ([["REQ", "r1"]], [["rename", "r1", "k1"]])):
+            out.append({"prop": PROP, "cfg": cfg, "order": "asc", "base": BASE_R, "scripts": [L, []], "app": app,
+                        "opts": {"smart": True, "check_base": False, "base_side": 1},
+                        "mode": {"k": None, "cap": 2500 if tier == "quick" else 10000, "depth": 60, "audit": 0}})
     # several registered predicates: a file matching only a later one is auto-synced too
     base2 = BASE_R + [["create", "m.cfg", "4"], ["create", "d/k.cfg", "5"]]
     for cfg in cfgs:
